@@ -102,6 +102,35 @@ func (g *Gen) call(st *State, v ssa.Value, c *ssa.CallCommon, ins ssa.Instructio
 		g.unknownCall(st, v, "dynamic call", sig)
 		return
 	}
+	// sort.Slice / sort.SliceStable permute the elements of the slice in place (built-in rule; the comparison closure is
+	// assumed not to write the heap). Nothing is assumed about the resulting order here: see the determinism scan.
+	if key == "sort.Slice" || key == "sort.SliceStable" {
+		if mi, ok := c.Args[0].(*ssa.MakeInterface); ok {
+			if sl, ok := mi.X.Type().Underlying().(*types.Slice); ok {
+				tags := map[string]bool{}
+				g.collectElemTags(sl.Elem(), tags)
+				sv := g.term(mi.X)
+				var tl []string
+				for t := range tags {
+					tl = append(tl, t)
+				}
+				sortStrings(tl)
+				for _, tag := range tl {
+					cur := g.sc.lookup(st, tag)
+					n := g.sc.fresh("sorted_"+tag, g.sc.tagSort[tag])
+					g.sc.emit("(assert (forall ((r Ref)) (! (=> (not (= (rb r) (rb (sarr %s)))) (= (select %s r) (select %s r))) :pattern ((select %s r)))))", sv, n, cur, n)
+					st.mem[tag] = n
+					if g.isFreshRoot(mi.X) || isPhiOfFresh(mi.X) {
+						g.sc.setStep(n, cur, fmt.Sprintf("(rb (sarr %s))", sv))
+					} else {
+						g.frameWrite(st, tag, fmt.Sprintf("(rb (sarr %s))", sv), cur, n)
+					}
+				}
+				g.assumptions["sort.Slice: permutes the slice in place; the comparison closure does not write the heap"] = true
+				return
+			}
+		}
+	}
 	// site-specific contract (evaluated in the caller's scope)
 	if sct := g.siteContract(ins, key); sct != nil {
 		g.applySiteContract(st, v, sct, sig, pos)
@@ -121,12 +150,12 @@ func (g *Gen) call(st *State, v ssa.Value, c *ssa.CallCommon, ins ssa.Instructio
 		g.unknownCall(st, v, key, sig)
 		return
 	}
-	g.siteRequires(st, ins, key, pos)
+	g.siteRequires(st, ins, key, pos, c, args)
 	g.applyContract(st, v, ct, c.StaticCallee(), sig, args, nil, pos, argVals...)
 }
 
 // siteRequires: extra preconditions of one call site, evaluated in the caller's scope (old = caller entry).
-func (g *Gen) siteRequires(st *State, ins ssa.Instruction, key string, pos token.Pos) {
+func (g *Gen) siteRequires(st *State, ins ssa.Instruction, key string, pos token.Pos, c *ssa.CallCommon, args []string) {
 	prefix := "sitereq:" + g.fn.String() + ":" + key + "#"
 	var poss []token.Pos
 	for _, b := range g.fn.Blocks {
@@ -150,6 +179,17 @@ func (g *Gen) siteRequires(st *State, ins ssa.Instruction, key string, pos token
 		env := g.baseEnv(st)
 		g.addLets(env)
 		g.bindLocalsForSite(env, st)
+		// the callee's parameters are visible too (under their own names unless a caller name is in the way, and as argN)
+		names, tys := calleeParams(c.StaticCallee(), c.Signature(), false)
+		for i := range names {
+			if i < len(args) {
+				v := tv{t: args[i], ty: goT(tys[i])}
+				env.vars[fmt.Sprintf("arg%d", i)] = v
+				if _, clash := env.vars[names[i]]; !clash {
+					env.vars[names[i]] = v
+				}
+			}
+		}
 		for _, c := range ct.Requires {
 			t, err := env.formula(c.E)
 			if err != nil {
@@ -611,7 +651,7 @@ func (g *Gen) appendOp(st *State, v ssa.Value, c *ssa.CallCommon, pos token.Pos)
 		g.sc.emit("(assert (forall ((i Int)) (! (=> (and (<= 0 i) (< i %s)) (= (select %s %s) (ite (< i (slen %s)) (select %s %s) (select %s %s)))) :pattern ((select %s %s)))))",
 			newLen, n, dst, s, cur, src1, cur, src2, n, dst)
 		st.mem[tag] = n
-		g.sc.oldEq[n] = g.sc.oldBase(cur)
+		g.sc.setStep(n, cur, fmt.Sprintf("(rb %s)", arr))
 	}
 	leaf(sl.Elem(), func(b string) string { return b }, "")
 }
@@ -1065,6 +1105,37 @@ func (g *Gen) refreshFreshRegion(st *State, sig *types.Signature, frBefore strin
 		g.havocTag(st, t)
 		nw := st.mem[t]
 		g.sc.emit("(assert (forall ((r Ref)) (! (=> (< (rb r) %s) (= (select %s r) (select %s r))) :pattern ((select %s r)))))", frBefore, nw, cur, nw)
-		g.sc.oldEq[nw] = g.sc.oldBase(cur)
+		g.sc.setStep(nw, cur, frBefore)
 	}
+}
+
+// isPhiOfFresh: a loop-carried slice built only by append / nil (e.g. `var list []T; for ... { list = append(list, x) }`).
+func isPhiOfFresh(v ssa.Value) bool {
+	seen := map[ssa.Value]bool{}
+	var ok func(v ssa.Value) bool
+	ok = func(v ssa.Value) bool {
+		if seen[v] {
+			return true
+		}
+		seen[v] = true
+		switch x := v.(type) {
+		case *ssa.Phi:
+			for _, e := range x.Edges {
+				if !ok(e) {
+					return false
+				}
+			}
+			return true
+		case *ssa.Const:
+			return x.Value == nil
+		case *ssa.Call:
+			if b, isB := x.Call.Value.(*ssa.Builtin); isB && b.Name() == "append" {
+				return true
+			}
+		case *ssa.MakeSlice:
+			return true
+		}
+		return false
+	}
+	return ok(v)
 }
